@@ -278,6 +278,16 @@ func (e *seqEngine) eval(v ssa.Value, p *pathCtx) seqVal {
 	case *ssa.UnOp:
 		if x.Op == token.MUL {
 			switch a := resolveAlong(x.X, p.pred).(type) {
+			case *ssa.Global:
+				// a package-level slice that is assigned only in its declaration, from a literal, and never
+				// written through: a constant table, evaluated to the elements of the literal
+				if elems, ok := e.w.readOnlySliceGlobal(a); ok {
+					out := seqVal{AliasOf: "G(" + a.Name() + ")"}
+					for _, ev := range elems {
+						out.Atoms = append(out.Atoms, elemAtom(ev, nil))
+					}
+					return out
+				}
 			case *ssa.FieldAddr:
 				fv := fieldVar(a.X.Type(), a.Field)
 				at := atom{Kind: 'F', Field: fv, Base: canon(a.X), Val: x}
@@ -442,13 +452,36 @@ func (e *seqEngine) evalMake(m *ssa.MakeSlice, p *pathCtx) seqVal {
 	}
 	// collect copies into m on this path, keyed by offset expression
 	type cp struct {
-		off string // canon of the low bound ("" for 0)
-		src ssa.Value
+		off  string // normalised low bound ("" for 0)
+		src  ssa.Value
+		elem bool // a single element stored at index off (dst[off] = src)
 	}
 	var cps []cp
 	onPath := map[*ssa.BasicBlock]bool{}
 	for _, b := range p.blocks {
 		onPath[b] = true
+	}
+	// offsets are compared in one normal form: the result of copy(dst, src) counts as len(src) (the length
+	// check below makes sure dst has room), sums are spelled out, merged locals are resolved along the path
+	var offKey func(v ssa.Value, d int) string
+	offKey = func(v ssa.Value, d int) string {
+		if v == nil {
+			return ""
+		}
+		v = resolveAlong(v, p.pred)
+		if d < 6 {
+			switch x := v.(type) {
+			case *ssa.Call:
+				if isBuiltin(x, "copy") {
+					return "call builtin len(" + canon(x.Call.Args[1]) + ")"
+				}
+			case *ssa.BinOp:
+				if x.Op == token.ADD {
+					return "(" + offKey(x.X, d+1) + " + " + offKey(x.Y, d+1) + ")"
+				}
+			}
+		}
+		return canon(v)
 	}
 	var visit func(v ssa.Value, off string)
 	visit = func(v ssa.Value, off string) {
@@ -456,15 +489,19 @@ func (e *seqEngine) evalMake(m *ssa.MakeSlice, p *pathCtx) seqVal {
 			switch r := ref.(type) {
 			case *ssa.Call:
 				if isBuiltin(r, "copy") && r.Call.Args[0] == v && onPath[r.Block()] {
-					cps = append(cps, cp{off, r.Call.Args[1]})
+					cps = append(cps, cp{off, r.Call.Args[1], false})
 				}
 			case *ssa.Slice:
 				if r.X == v && r.High == nil && r.Max == nil {
-					o := ""
-					if r.Low != nil {
-						o = canon(r.Low)
+					visit(r, offKey(r.Low, 0))
+				}
+			case *ssa.IndexAddr:
+				if r.X == v && off == "" && onPath[r.Block()] {
+					for _, r2 := range *r.Referrers() {
+						if st, ok := r2.(*ssa.Store); ok && st.Addr == ssa.Value(r) && onPath[st.Block()] {
+							cps = append(cps, cp{offKey(r.Index, 0), st.Val, true})
+						}
 					}
-					visit(r, o)
 				}
 			}
 		}
@@ -489,13 +526,18 @@ func (e *seqEngine) evalMake(m *ssa.MakeSlice, p *pathCtx) seqVal {
 			return seqVal{Unknown: "copies into the made slice do not tile it (offset " + offExpr + " not found)"}
 		}
 		used[found] = true
-		sv := e.eval(cps[found].src, p)
-		if sv.Unknown != "" {
-			return sv
+		if cps[found].elem {
+			out.Atoms = append(out.Atoms, elemAtom(cps[found].src, p.pred))
+			lens = append(lens, "1")
+		} else {
+			sv := e.eval(cps[found].src, p)
+			if sv.Unknown != "" {
+				return sv
+			}
+			out.Atoms = append(out.Atoms, sv.Atoms...)
+			out.Dropped = append(out.Dropped, sv.Dropped...)
+			lens = append(lens, "call builtin len("+canon(cps[found].src)+")")
 		}
-		out.Atoms = append(out.Atoms, sv.Atoms...)
-		out.Dropped = append(out.Dropped, sv.Dropped...)
-		lens = append(lens, "call builtin len("+canon(cps[found].src)+")")
 		if len(lens) == 1 {
 			offExpr = lens[0]
 		} else {
@@ -504,7 +546,7 @@ func (e *seqEngine) evalMake(m *ssa.MakeSlice, p *pathCtx) seqVal {
 	}
 	// the made length must be the sum of the copied lengths
 	want := offExpr
-	got := canon(m.Len)
+	got := offKey(m.Len, 0)
 	if got != want && !sameSum(got, lens) {
 		return seqVal{Unknown: "made length " + got + " is not the sum of the copied lengths " + want}
 	}
@@ -663,6 +705,10 @@ func resolveAlong1(ph *ssa.Phi, pred map[*ssa.BasicBlock]*ssa.BasicBlock) ssa.Va
 // definitelyNonNil: the value cannot be nil (by construction, or because the
 // path already dereferenced a value with the same canonical form).
 func definitelyNonNil(v ssa.Value, nonnil map[string]bool) bool {
+	if ct, ok := v.(*ssa.ChangeType); ok {
+		// a named function or slice type given to a value: nil-ness is that of the operand
+		return definitelyNonNil(ct.X, nonnil)
+	}
 	switch v.(type) {
 	case *ssa.Alloc, *ssa.MakeInterface, *ssa.MakeMap, *ssa.MakeChan, *ssa.MakeClosure, *ssa.MakeSlice, *ssa.Function, *ssa.Global, *ssa.FieldAddr, *ssa.IndexAddr:
 		return true
@@ -804,6 +850,13 @@ type condFact struct {
 // decisions and dereferences) and the extra facts seed the path condition;
 // branches whose condition folds on the path are pruned.
 func exploreFrom(from ssa.Instruction, extra []condFact, limit int) ([]*fwdPath, bool) {
+	return exploreFromUntil(from, extra, limit, nil)
+}
+
+// exploreFromUntil is exploreFrom with an additional end of path: the first instruction satisfying stop ends the
+// path there (it is the last element of instrs, ret stays nil). Needed when the interesting event is "the walk comes
+// round to this instruction again", which on a path that then has no unused edge left would never be emitted.
+func exploreFromUntil(from ssa.Instruction, extra []condFact, limit int, stop func(ssa.Instruction) bool) ([]*fwdPath, bool) {
 	f := from.Parent()
 	var out []*fwdPath
 	complete := true
@@ -846,6 +899,10 @@ func exploreFrom(from ssa.Instruction, extra []condFact, limit int) ([]*fwdPath,
 			in := b.Instrs[j]
 			noteDeref(in, pred, nonnil)
 			instrs = append(instrs, in)
+			if stop != nil && stop(in) {
+				out = append(out, &fwdPath{pc: &pathCtx{fn: f, pred: pred, conds: conds, decs: decs}, instrs: append([]ssa.Instruction(nil), instrs...)})
+				return
+			}
 			if ret, ok := in.(*ssa.Return); ok {
 				out = append(out, &fwdPath{pc: &pathCtx{fn: f, pred: pred, conds: conds, decs: decs}, instrs: append([]ssa.Instruction(nil), instrs...), ret: ret})
 				return
@@ -936,4 +993,114 @@ func mustDerefParam(f *ssa.Function, i int) bool {
 	})
 	mustDerefMemo[f][i] = ok
 	return ok
+}
+
+// readOnlySliceGlobal: g is a package-level slice variable whose only store is the one of its declaration (in the
+// package initialiser), storing a composite literal, and no function of the module writes an element through it,
+// re-slices it for appending, or takes its address. Returns the literal's elements in order.
+func (w *World) readOnlySliceGlobal(g *ssa.Global) ([]ssa.Value, bool) {
+	if _, isSlice := g.Type().(*types.Pointer).Elem().Underlying().(*types.Slice); !isSlice {
+		return nil, false
+	}
+	var lit *ssa.Alloc
+	stores := 0
+	ok := true
+	for _, f := range w.allFuncsOf(g.Pkg) {
+		eachInstr(f, func(in ssa.Instruction) {
+			for _, op := range in.Operands(nil) {
+				if op == nil || *op != ssa.Value(g) {
+					continue
+				}
+				switch x := in.(type) {
+				case *ssa.Store:
+					if x.Addr != ssa.Value(g) {
+						ok = false // address stored somewhere
+						continue
+					}
+					stores++
+					if f.Name() != "init" || f.Parent() != nil {
+						ok = false
+					}
+					if sl, isSl := x.Val.(*ssa.Slice); isSl {
+						lit, _ = sl.X.(*ssa.Alloc)
+					}
+				case *ssa.UnOp:
+					// a load: the loaded slice may be read, ranged, passed as a variadic source; not written through
+					for _, ref := range *x.Referrers() {
+						switch y := ref.(type) {
+						case *ssa.IndexAddr:
+							for _, r2 := range *y.Referrers() {
+								if st, isSt := r2.(*ssa.Store); isSt && st.Addr == ssa.Value(y) {
+									ok = false
+								}
+							}
+						case *ssa.Call:
+							if isBuiltin(y, "append") && len(y.Call.Args) > 0 && y.Call.Args[0] == ssa.Value(x) {
+								ok = false
+							}
+							if isBuiltin(y, "copy") && len(y.Call.Args) > 0 && y.Call.Args[0] == ssa.Value(x) {
+								ok = false
+							}
+							if n := calleeName(y); strings.HasPrefix(n, "sort.") || strings.HasPrefix(n, "slices.Sort") || n == "slices.Reverse" {
+								ok = false
+							}
+						}
+					}
+				default:
+					ok = false
+				}
+			}
+		})
+	}
+	if !ok || stores != 1 || lit == nil {
+		return nil, false
+	}
+	arr, isArr := lit.Type().(*types.Pointer).Elem().Underlying().(*types.Array)
+	if !isArr {
+		return nil, false
+	}
+	elems := make([]ssa.Value, arr.Len())
+	for _, ref := range *lit.Referrers() {
+		ia, isIA := ref.(*ssa.IndexAddr)
+		if !isIA {
+			continue
+		}
+		i, okc := constInt(ia.Index)
+		if !okc || i < 0 || i >= arr.Len() {
+			return nil, false
+		}
+		for _, r2 := range *ia.Referrers() {
+			if st, isSt := r2.(*ssa.Store); isSt && st.Addr == ssa.Value(ia) {
+				elems[i] = st.Val
+			}
+		}
+	}
+	for _, ev := range elems {
+		if ev == nil {
+			return nil, false
+		}
+	}
+	return elems, true
+}
+
+// allFuncsOf: the module functions of one package plus its initialiser.
+func (w *World) allFuncsOf(pkg *ssa.Package) []*ssa.Function {
+	var out []*ssa.Function
+	for _, f := range w.Funcs {
+		if f.Pkg == pkg {
+			out = append(out, f)
+		}
+	}
+	if in := pkg.Func("init"); in != nil {
+		have := false
+		for _, f := range out {
+			if f == in {
+				have = true
+			}
+		}
+		if !have {
+			out = append(out, in)
+		}
+	}
+	return out
 }
